@@ -39,13 +39,16 @@ Lemma line_join line : line < 4294967296 ->
 Proof. intros. lia. Qed.
 
 (** ------------------------------------------------------------ serialize then decode *)
-Lemma scion_dec_enc h : wf_scion h ->
+Lemma path_type_lt p : is_opaque p = false -> path_type p < 4.
+Proof. destruct p; cbn; intros; try discriminate; lia. Qed.
+
+Lemma scion_dec_enc h : wf_scion h -> is_opaque (s_path h) = false ->
   exists e, scion_encode_nofix h = Ok e /\ length e = scn_len h /\
     forall payload, scion_decode (e ++ payload) = Ok (scion_canon false 0 h, payload).
 Proof.
-  intros (WN & Hpl & Hlen & Hhl).
+  intros (WN & Hpl & Hlen & Hhl) NO.
   destruct WN as (Hv & Htc & Hfl & Hnh & Hpt & Hdt & Hst & Hdia & Hsia & Ld & Wd & Ls & Ws & Wp & ND).
-  destruct (path_dec_enc (s_path h) Wp ND) as (pe & Epe & Lpe & Dpe & _).
+  destruct (path_dec_enc (s_path h) Wp ND NO) as (pe & Epe & Lpe & Dpe & _).
   unfold scion_encode_nofix.
   rewrite (proj2 (Nat.ltb_ge _ _)) by (unfold max_hdr_len, line_len in *; lia).
   replace (Nat.eqb (Nat.modulo (scn_len h) line_len) 0) with true.
@@ -55,12 +58,12 @@ Proof.
   rewrite (fit_exact _ _ Ld), (fit_exact _ _ Ls).
   split.
   { len_norm. rewrite Ld, Ls, Lpe. unfold scn_len, addr_hdr_len, cmn_hdr_len, ia_bytes. lia. }
-  intros payload. unfold scion_decode.
+  intros payload. unfold scion_decode, scion_decode_gen.
   rewrite ltb_false by (len_norm; unfold cmn_hdr_len; lia).
   rewrite <- !app_assoc.
   destruct (tl_split _ _ Hdt Hst) as (Edt & Est & Htl).
   pose proof (first_line_lt h) as Hline.
-  assert (Hptl : s_pathtype h < 256) by (rewrite Hpt; destruct (s_path h); cbn; lia).
+  assert (Hptl : s_pathtype h < 256) by (rewrite Hpt; pose proof (path_type_lt _ NO); lia).
   rewrite wordP_be_small by lt_pow. cbn [bind].
   do 6(rewrite wordP_be_small by lt_pow; cbn [bind]).
   cbv zeta. rewrite !Edt, !Est.
@@ -93,13 +96,13 @@ Proof.
   repeat split; lia.
 Qed.
 
-Lemma scion_dec_enc_fix h n : wf_scion_nolen h ->
+Lemma scion_dec_enc_fix h n : wf_scion_nolen h -> is_opaque (s_path h) = false ->
   (scn_len h <= max_hdr_len)%nat -> Nat.modulo (scn_len h) line_len = 0%nat ->
   exists e, scion_encode true n h = Ok e /\ length e = scn_len h /\
     forall payload, scion_decode (e ++ payload) = Ok (scion_canon true n h, payload).
 Proof.
-  intros WN Hmax Hmod. pose proof (scion_fix_wf h n WN Hmax Hmod) as W.
-  destruct (scion_dec_enc _ W) as (e & E & L & D). exists e. split; [exact E|]. split; [exact L|].
+  intros WN NO Hmax Hmod. pose proof (scion_fix_wf h n WN Hmax Hmod) as W.
+  destruct (scion_dec_enc _ W NO) as (e & E & L & D). exists e. split; [exact E|]. split; [exact L|].
   exact D.
 Qed.
 
@@ -139,14 +142,23 @@ Proof.
   repeat split; apply N.mod_small; assumption.
 Qed.
 
-Lemma scion_enc_dec bs h payload : wf_bytes bs -> scion_decode bs = Ok (h, payload) ->
+Section AnyPathDecoder.
+(** everything below holds for the strict decoder and for the recycling one alike *)
+Variable pd : N -> bytes -> res (path * bytes).
+Hypothesis pd_np : forall pt bs, pd pt bs <> Panic.
+Hypothesis pd_spec : forall pt bs p rest, pt < 256 -> wf_bytes bs -> pd pt bs = Ok (p, rest) ->
+  exists e, path_encode p = Ok e /\ e ++ rest = mask_path pt bs /\ wf_path p /\ wf_bytes rest /\
+            path_type p = pt /\ length bs = (path_len p + length rest)%nat /\
+            (forall d, p <> PDecoded d).
+
+Lemma scion_enc_dec_gen bs h payload : wf_bytes bs -> scion_decode_gen pd bs = Ok (h, payload) ->
   wf_scion_nolen h /\ s_paylen h < 65536 /\ s_hdrlen h < 256 /\ wf_bytes payload /\
   (scn_len h <= N.to_nat (s_hdrlen h) * line_len)%nat /\
   length bs = (N.to_nat (s_hdrlen h) * line_len + length payload)%nat /\
   (scion_slack h = 0%nat ->
    exists e, scion_encode_nofix h = Ok e /\ e ++ payload = mask_scion bs).
 Proof.
-  intros W. unfold scion_decode. destruct (Nat.ltb (length bs) cmn_hdr_len); [discriminate|].
+  intros W. unfold scion_decode_gen. destruct (Nat.ltb (length bs) cmn_hdr_len); [discriminate|].
   do 7 inv_word. cbv zeta.
   set (dt := (n4 / 16) mod 16). set (st := n4 mod 16).
   destruct (Nat.ltb (length r) (addr_hdr_len dt st)); [discriminate|].
@@ -156,9 +168,10 @@ Proof.
   match goal with |- context [Nat.ltb ?a ?b] => destruct (Nat.ltb a b) eqn:L2; [discriminate|] end.
   apply Nat.ltb_ge in L2.
   inv_take.
-  destruct (path_decode n3 a1) as [[p slack]| |] eqn:Ep; cbn [bind]; try discriminate.
+  destruct (pd n3 a1) as [[p slack]| |] eqn:Ep; cbn [bind]; try discriminate.
   intros H; injection H as <- <-.
-  destruct (path_enc_dec _ _ _ _ Wa1 Ep) as (pe & Epe & Mpe & Wp & Wslack & Hpt & Lpb & ND).
+  assert (Hpt256 : n3 < 256) by (pow256; lia).
+  destruct (pd_spec _ _ _ _ Hpt256 Wa1 Ep) as (pe & Epe & Mpe & Wp & Wslack & Hpt & Lpb & ND).
   pows2. pow256.
   assert (Hdt : dt < 16) by (subst dt; lia). assert (Hst : st < 16) by (subst st; lia).
   cbn [s_paylen s_hdrlen]. unfold scn_len, scion_slack, scn_len.
@@ -205,9 +218,9 @@ Proof.
 Qed.
 
 (** ------------------------------------------------------------ totality *)
-Lemma scion_no_panic bs : scion_decode bs <> Panic.
+Lemma scion_no_panic_gen bs : scion_decode_gen pd bs <> Panic.
 Proof.
-  unfold scion_decode. destruct (Nat.ltb (length bs) cmn_hdr_len) eqn:L; [discriminate|].
+  unfold scion_decode_gen. destruct (Nat.ltb (length bs) cmn_hdr_len) eqn:L; [discriminate|].
   apply Nat.ltb_ge in L. unfold cmn_hdr_len in L.
   do 7 (np_word lia). cbv zeta.
   set (dt := (n4 / 16) mod 16). set (st := n4 mod 16).
@@ -219,8 +232,8 @@ Proof.
   match goal with |- context [Nat.ltb ?a ?b] => destruct (Nat.ltb a b) eqn:L2; [discriminate|] end.
   apply Nat.ltb_ge in L2.
   np_take ltac:(unfold addr_hdr_len, ia_bytes, cmn_hdr_len in *; lia).
-  pose proof (path_no_panic n3 a1).
-  destruct (path_decode n3 a1) as [[p s]| |]; cbn [bind]; congruence.
+  pose proof (pd_np n3 a1).
+  destruct (pd n3 a1) as [[p s]| |]; cbn [bind]; congruence.
 Qed.
 
 Lemma nth5_word line nh hl r : hl < 256 -> nth 5 (be 4 line ++ be 1 nh ++ be 1 hl ++ r) 0 = hl.
@@ -229,26 +242,156 @@ Proof.
 Qed.
 
 (** HdrLen announcing more bytes than there are is rejected *)
-Lemma scion_reject_overlong bs : wf_bytes bs -> scion_overlong bs = true -> scion_decode bs = Err.
+Lemma scion_reject_overlong_gen bs : wf_bytes bs -> scion_overlong bs = true -> scion_decode_gen pd bs = Err.
 Proof.
-  intros W H. pose proof (scion_no_panic bs) as NP.
-  destruct (scion_decode bs) as [[h payload]| |] eqn:E; [|reflexivity|congruence].
-  exfalso. destruct (scion_enc_dec _ _ _ W E) as (_ & _ & Hhl & _ & _ & Hlen & _).
+  intros W H. pose proof (scion_no_panic_gen bs) as NP.
+  destruct (scion_decode_gen pd bs) as [[h payload]| |] eqn:E; [|reflexivity|congruence].
+  exfalso. destruct (scion_enc_dec_gen _ _ _ W E) as (_ & _ & Hhl & _ & _ & Hlen & _).
   unfold scion_overlong in H. apply andb_true_iff in H as [_ H]. apply Nat.ltb_lt in H.
   assert (nth 5 bs 0 = s_hdrlen h).
-  { revert E. unfold scion_decode. destruct (Nat.ltb (length bs) cmn_hdr_len); [discriminate|].
+  { revert E. unfold scion_decode_gen. destruct (Nat.ltb (length bs) cmn_hdr_len); [discriminate|].
     do 3 inv_word. intros E.
     assert (s_hdrlen h = n1).
     { revert E. repeat match goal with
         | |- context [bind (wordP ?k ?l) _] => destruct (wordP k l) as [[? ?]| |]; cbn [bind]; try discriminate
         | |- context [bind (takeP ?k ?l) _] => destruct (takeP k l) as [[? ?]| |]; cbn [bind]; try discriminate
         | |- context [if ?c then Err else _] => destruct c; try discriminate
-        | |- context [bind (path_decode ?k ?l) _] => destruct (path_decode k l) as [[? ?]| |]; cbn [bind]; try discriminate
+        | |- context [bind (pd ?k ?l) _] => destruct (pd k l) as [[? ?]| |]; cbn [bind]; try discriminate
         | _ => progress cbv zeta
         end.
       intros E; injection E as <- <-. reflexivity. }
     rewrite H0. apply nth5_word. pow256. lia. }
   rewrite H0 in H. lia.
+Qed.
+
+End AnyPathDecoder.
+
+Lemma scion_enc_dec bs h payload : wf_bytes bs -> scion_decode bs = Ok (h, payload) ->
+  wf_scion_nolen h /\ s_paylen h < 65536 /\ s_hdrlen h < 256 /\ wf_bytes payload /\
+  (scn_len h <= N.to_nat (s_hdrlen h) * line_len)%nat /\
+  length bs = (N.to_nat (s_hdrlen h) * line_len + length payload)%nat /\
+  (scion_slack h = 0%nat ->
+   exists e, scion_encode_nofix h = Ok e /\ e ++ payload = mask_scion bs).
+Proof. exact (scion_enc_dec_gen path_decode path_no_panic (fun pt bs p rest _ => path_enc_dec pt bs p rest) bs h payload). Qed.
+Lemma scion_no_panic bs : scion_decode bs <> Panic.
+Proof. exact (scion_no_panic_gen path_decode path_no_panic (fun pt bs p rest _ => path_enc_dec pt bs p rest) bs). Qed.
+Lemma scion_reject_overlong bs : wf_bytes bs -> scion_overlong bs = true -> scion_decode bs = Err.
+Proof. exact (scion_reject_overlong_gen path_decode path_no_panic (fun pt bs p rest _ => path_enc_dec pt bs p rest) bs). Qed.
+
+Lemma scion_r_enc_dec bs h payload : wf_bytes bs -> scion_decode_r bs = Ok (h, payload) ->
+  wf_scion_nolen h /\ s_paylen h < 65536 /\ s_hdrlen h < 256 /\ wf_bytes payload /\
+  (scn_len h <= N.to_nat (s_hdrlen h) * line_len)%nat /\
+  length bs = (N.to_nat (s_hdrlen h) * line_len + length payload)%nat /\
+  (scion_slack h = 0%nat ->
+   exists e, scion_encode_nofix h = Ok e /\ e ++ payload = mask_scion bs).
+Proof. exact (scion_enc_dec_gen path_decode_r path_r_no_panic path_r_enc_dec bs h payload). Qed.
+Lemma scion_r_no_panic bs : scion_decode_r bs <> Panic.
+Proof. exact (scion_no_panic_gen path_decode_r path_r_no_panic path_r_enc_dec bs). Qed.
+Lemma scion_r_reject_overlong bs : wf_bytes bs -> scion_overlong bs = true -> scion_decode_r bs = Err.
+Proof. exact (scion_reject_overlong_gen path_decode_r path_r_no_panic path_r_enc_dec bs). Qed.
+
+(** a recycling layer and a fresh one agree on every packet whose path type is registered *)
+Lemma scion_r_same bs : nth 8 bs 0 <= 3 -> wf_bytes bs -> scion_decode_r bs = scion_decode bs.
+Proof.
+  intros H8 W. unfold scion_decode_r, scion_decode, scion_decode_gen.
+  destruct (Nat.ltb (length bs) cmn_hdr_len); [reflexivity|].
+  destruct (wordP 4 bs) as [[n r]| |] eqn:E1; cbn [bind]; try reflexivity.
+  apply (wordP_inv _ _ _ _ W) in E1 as (-> & Hn & W1).
+  destruct (wordP 1 r) as [[n0 r0]| |] eqn:E2; cbn [bind]; try reflexivity.
+  apply (wordP_inv _ _ _ _ W1) in E2 as (-> & Hn0 & W2).
+  destruct (wordP 1 r0) as [[n1 r1]| |] eqn:E3; cbn [bind]; try reflexivity.
+  apply (wordP_inv _ _ _ _ W2) in E3 as (-> & Hn1 & W3).
+  destruct (wordP 2 r1) as [[n2 r2]| |] eqn:E4; cbn [bind]; try reflexivity.
+  apply (wordP_inv _ _ _ _ W3) in E4 as (-> & Hn2 & W4).
+  destruct (wordP 1 r2) as [[n3 r3]| |] eqn:E5; cbn [bind]; try reflexivity.
+  apply (wordP_inv _ _ _ _ W4) in E5 as (-> & Hn3 & W5).
+  assert (E8 : nth 8 (be 4 n ++ be 1 n0 ++ be 1 n1 ++ be 2 n2 ++ be 1 n3 ++ r3) 0 = n3).
+  { rewrite !be_1. cbn [be app nth]. apply N.mod_small. pow256. lia. }
+  rewrite E8 in H8.
+  repeat match goal with
+    | |- context [bind (wordP ?k ?l) _] => destruct (wordP k l) as [[? ?]| |]; cbn [bind]; try reflexivity
+    | |- context [bind (takeP ?k ?l) _] => destruct (takeP k l) as [[? ?]| |]; cbn [bind]; try reflexivity
+    | |- context [if ?c then Err else _] => destruct c; try reflexivity
+    | _ => progress cbv zeta
+    end.
+  now rewrite path_r_same.
+Qed.
+
+(** ------------------------------------------------------------ headers carrying a decoded path *)
+Lemma to_raw_ok d : wf_dec d ->
+  exists e, dec_encode d = Ok e /\ to_raw d = PScion (mkRaw (dp_base d) e) /\
+            length e = base_len (dp_base d) /\ raw_encode (mkRaw (dp_base d) e) = Ok e /\
+            raw_canon (mkRaw (dp_base d) e) = mkRaw (dp_base d) e /\ dec_decode e = Ok (d, []).
+Proof.
+  intros W. destruct (dec_encode_ok d W) as [E L]. destruct (dec_dec_enc d [] W) as (e & E' & D).
+  rewrite E in E'. injection E' as <-. rewrite app_nil_r in D.
+  eexists. split; [exact E|]. split; [unfold to_raw; now rewrite E|]. split; [exact L|].
+  pose proof (base_len_ge (dp_base d)) as G.
+  assert (S4 : skipn meta_len (meta_encode (b_meta (dp_base d)) ++
+                concat (map info_encode (dp_infos d)) ++ concat (map hop_encode (dp_hops d))) =
+               concat (map info_encode (dp_infos d)) ++ concat (map hop_encode (dp_hops d)))
+    by (apply skipn_app_exact, meta_encode_length).
+  split; [|split; [|exact D]].
+  - unfold raw_encode. cbn [rp_raw rp_base]. rewrite ltb_false by lia. rewrite S4. now rewrite fit_exact.
+  - unfold raw_canon. cbn [rp_raw rp_base]. now rewrite S4.
+Qed.
+
+Lemma scion_undecoded_other h : is_decoded (s_path h) = false -> scion_undecoded h = h.
+Proof. unfold scion_undecoded. destruct (s_path h); try reflexivity. discriminate. Qed.
+
+Lemma scion_undecoded_encode h d : s_path h = PDecoded d -> wf_dec d ->
+  scion_encode_nofix (scion_undecoded h) = scion_encode_nofix h.
+Proof.
+  intros P W. destruct (to_raw_ok d W) as (e & E & T & L & R & _).
+  unfold scion_undecoded. rewrite P, T. unfold scion_encode_nofix, scn_len.
+  cbn [s_version s_tc s_flowid s_nexthdr s_hdrlen s_paylen s_pathtype s_dt s_st s_dstia s_srcia
+       s_rawdst s_rawsrc s_path first_line]. rewrite P.
+  cbn [path_len path_encode rp_base]. rewrite R, E. reflexivity.
+Qed.
+
+Lemma scion_undecoded_fix h d n : s_path h = PDecoded d -> wf_dec d ->
+  scion_undecoded (scion_fix n h) = scion_fix n (scion_undecoded h).
+Proof.
+  intros P W. destruct (to_raw_ok d W) as (e & E & T & L & R & _).
+  unfold scion_undecoded, scion_fix, scn_len. cbn [s_path s_version s_tc s_flowid s_nexthdr s_hdrlen
+    s_paylen s_pathtype s_dt s_st s_dstia s_srcia s_rawdst s_rawsrc]. rewrite P, T.
+  cbn [s_path s_version s_tc s_flowid s_nexthdr s_hdrlen s_paylen s_pathtype s_dt s_st s_dstia s_srcia
+    s_rawdst s_rawsrc path_len rp_base]. reflexivity.
+Qed.
+
+(** serializing a header with a decoded path and decoding the bytes yields the same header with the
+    path in raw form, and that raw path decodes (ToDecoded) to exactly the original fields *)
+Lemma scion_dec_enc_decoded (fx : bool) n h d : s_path h = PDecoded d -> wf_dec d ->
+  (if fx then wf_scion_nolen (scion_undecoded h) /\ (scn_len (scion_undecoded h) <= max_hdr_len)%nat /\
+              Nat.modulo (scn_len (scion_undecoded h)) line_len = 0%nat
+   else wf_scion (scion_undecoded h)) ->
+  exists e r, scion_encode fx n h = Ok e /\
+    s_path (scion_canon fx n (scion_undecoded h)) = PScion r /\ dec_decode (rp_raw r) = Ok (d, []) /\
+    forall payload, scion_decode (e ++ payload) = Ok (scion_canon fx n (scion_undecoded h), payload).
+Proof.
+  intros P Wd W. destruct (to_raw_ok d Wd) as (e0 & E0 & T & L0 & R0 & C0 & D0).
+  assert (NO : is_opaque (s_path (scion_undecoded h)) = false)
+    by (unfold scion_undecoded; rewrite P, T; reflexivity).
+  assert (Enc : scion_encode fx n h = scion_encode fx n (scion_undecoded h)).
+  { unfold scion_encode. destruct fx.
+    - rewrite <- (scion_undecoded_fix h d n P Wd). symmetry. apply (scion_undecoded_encode _ d); [exact P | exact Wd].
+    - symmetry. now apply (scion_undecoded_encode h d). }
+  assert (Hp : s_path (scion_canon fx n (scion_undecoded h)) = PScion (mkRaw (dp_base d) e0)).
+  { unfold scion_canon, scion_undecoded. rewrite P, T. destruct fx; cbn [s_path scion_fix path_canon]; now rewrite C0. }
+  destruct fx.
+  - destruct W as (W & Hm & Hmod). destruct (scion_dec_enc_fix _ n W NO Hm Hmod) as (e & E & _ & D).
+    exists e, (mkRaw (dp_base d) e0). rewrite Enc. auto.
+  - destruct (scion_dec_enc _ W NO) as (e & E & _ & D).
+    exists e, (mkRaw (dp_base d) e0). rewrite Enc. auto.
+Qed.
+
+(** the path type of every decoded header fits the PathType byte *)
+Lemma scion_r_pathtype_lt bs h payload : wf_bytes bs -> scion_decode_r bs = Ok (h, payload) ->
+  s_pathtype h < 256.
+Proof.
+  intros W D. destruct (scion_r_enc_dec _ _ _ W D) as (WN & _).
+  destruct WN as (_ & _ & _ & _ & Hpt & _ & _ & _ & _ & _ & _ & _ & _ & Wp & _).
+  rewrite Hpt. destruct (s_path h); cbn in *; lia.
 Qed.
 
 (** ------------------------------------------------------------ ParseAddr / PackAddr *)
